@@ -28,7 +28,8 @@ class C15(Spec):
     driver = "drv_sort"
     rule = ("one case = one SliceBy call (keys given explicitly, values identified by original index, lengths may differ; "
             "less = keys[i]<keys[j] on []int or []string keys (independent strings or substrings of one shared string), or an "
-            "inconsistent hash-based less), or several SliceBy calls re-slicing the same backing arrays (multi), or one Unique* call; "
+            "inconsistent hash-based less; float64/float32 keys and values given as bit-pattern tokens incl. -0/+0/NaN/denormals, "
+            "compared bitwise), or several SliceBy calls re-slicing the same backing arrays (multi), or one Unique* call; "
             "compared with the model: final keys, final value permutation, number and hash of all Less(i,j)->r calls "
             "(full call log for min<=16), Unique result and backing array. distinct by script line; non-trivial = "
             "at least 2 elements in the common prefix / in the Unique input")
@@ -79,7 +80,15 @@ class C15(Spec):
             return None
         return self.oracle_slice(w[1], parse_ints(w[2]), int(w[4]), impl)
 
-    CONSISTENT = ("int", "str", "intb", "strb", "spre", "ssuf", "swin", "smix")
+    CONSISTENT = ("int", "str", "intb", "strb", "spre", "ssuf", "swin", "smix", "vf64", "vf32")
+    FLOATKEYS = ("f64", "f32", "ff")
+
+    @staticmethod
+    def flt_rank(t):
+        """order class of a float token (bit pattern) under <; None = NaN"""
+        if t in (8, 9):
+            return None
+        return {3: 3, 4: 3, 5: 4, 6: 5, 7: 1 << 62}.get(t, t)
 
     def oracle_slice(self, mode, keys, nv, impl):
         mode = mode.split("=")[0]
@@ -106,7 +115,18 @@ class C15(Spec):
         for i in range(n):
             if k[i] != keys[v[i]]:
                 return ("pairing-broken", "slot %d holds key %d with value #%d whose original key was %d" % (i, k[i], v[i], keys[v[i]]))
-        if mode in self.CONSISTENT:
+        consistent = mode in self.CONSISTENT
+        if mode in self.FLOATKEYS:
+            # elements are float bit patterns (tokens): pairing / permutation above are checked bitwise; order by rank,
+            # unless a NaN key makes < inconsistent
+            ranks = [self.flt_rank(t) for t in keys[:n]]
+            if None not in ranks:
+                consistent = True
+                rk = [self.flt_rank(t) for t in k[:n]]
+                for i in range(n - 1):
+                    if rk[i] is None or rk[i + 1] is None or rk[i] > rk[i + 1]:
+                        return ("not-sorted", "float keys (tokens) %d,%d at %d,%d out of order within the first %d" % (k[i], k[i + 1], i, i + 1, n))
+        elif consistent:
             for i in range(n - 1):
                 if k[i] > k[i + 1]:
                     return ("not-sorted", "keys[%d]=%d > keys[%d]=%d within the first %d" % (i, k[i], i + 1, k[i + 1], n))
@@ -116,7 +136,7 @@ class C15(Spec):
                 if not (0 <= int(i) < n and 0 <= int(j) < n):
                     return ("index-out-of-range", "less called with (%s,%s), common prefix is %d" % (i, j, n))
         if n >= 2:
-            factor = 4 if mode in self.CONSISTENT else 8   # inconsistent less: only O(n log n) with a looser constant
+            factor = 4 if consistent else 8   # inconsistent less: only O(n log n) with a looser constant
             bound = factor * n * (math.log2(n) + 2)
             if cnt > bound:
                 return ("too-many-less-calls", "%d less calls > %d*n*(lg n + 2) = %.0f for n=%d" % (cnt, factor, bound, n))
